@@ -282,7 +282,7 @@ void harness(void)
   __CPROVER_assume(!s.recursive || (s.depth >= 0 && s.depth < 1000 && ((s.owner < 0) == (s.depth == 0))));
   for (int k = 0; k < QSZ; k++) {
     __CPROVER_assume(0 <= s.issuer[k] && s.issuer[k] < NACT && 1 <= s.depth_[k] && s.depth_[k] < 1000 &&
-                     s.simcalls[k] <= 1);
+                     s.simcalls[k] == 0); /* nobody waits on these acquisitions yet */
     if (s.h <= k && k < s.h + s.n) { /* queued: not granted, (recursive) not the owner, issuers distinct */
       __CPROVER_assume(!s.granted[k] && (!s.recursive || s.issuer[k] != s.owner));
       for (int j = 0; j < k; j++)
@@ -335,6 +335,122 @@ void harness(void)
   __CPROVER_assert(granted_of(0, hA) == granted_of(1, hA) && granted_of(0, hB) == granted_of(1, hB) &&
                        c_answered[0] == c_answered[1],
                    "same acquisition states and wake-ups in both orders"); /*@ indep_same_handles */
+  VF_CANARY_POINT;
+}
+#endif
+
+/* =====================================================================================================================
+ * (b') Commutation inside the semaphore group, on the REAL SemaphoreImpl code: SEM_ASYNC_LOCK -> acquire_async,
+ * SEM_UNLOCK -> release. The capacity field of the MC transition is what the application side packs
+ * (SemaphoreObserver::serialize): get_capacity() - |ongoing_acquisitions_|, evaluated in the state where the
+ * transition is pending. SEM_WAIT pairs are not covered here (wait_for only touches the acquisition and the actor).
+ * ===================================================================================================================== */
+#if defined(H_commute_sem)
+#ifndef QCAP
+#define QCAP 2
+#endif
+#define SSZ (QCAP + 4)
+struct ActorImpl s_act[3];
+struct ActivityImpl* s_ws[3][2];
+struct SemaphoreImpl s_sem[2];
+struct SemAcquisitionImpl* s_qd[2][SSZ];
+struct SemAcquisitionImpl* s_new[2][2]; /* acquisitions created by the (at most two) LOCKs of each world */
+int s_newcnt[2];
+int s_world;
+
+/* constructor of SemAcquisitionImpl: modelled (it sets issuer_/semaphore_, granted_ = false and a name string) */
+struct SemAcquisitionImpl* SemAcquisitionImpl__new(struct ActorImpl* issuer, struct SemaphoreImpl* sem)
+{
+  struct SemAcquisitionImpl* q = (struct SemAcquisitionImpl*)malloc(sizeof(struct SemAcquisitionImpl));
+  __CPROVER_assume(q != NULL);
+  q->issuer_  = issuer;
+  q->granted_ = 0;
+  if (s_newcnt[s_world] < 2)
+    s_new[s_world][s_newcnt[s_world]] = q;
+  s_newcnt[s_world]++;
+  return q;
+}
+void SemAcquisitionImpl__finish(struct SemAcquisitionImpl* self) {} /* unreachable: waiting_synchros_ are empty */
+void ActivityImpl__register_simcall(struct ActivityImpl* self, struct Simcall* sc) {}
+struct ActorImpl* ActivityImpl__unregister_first_simcall(struct ActivityImpl* self) { return NULL; }
+void ActorImpl__simcall_answer(struct ActorImpl* self) {}
+void ActivityImpl_T_MutexAcquisitionImpl__ctor(struct ActivityImpl_T_MutexAcquisitionImpl* self) {}
+
+struct ssym { unsigned value; size_t n; int issuer[SSZ]; };
+static void sbuild(int wi, const struct ssym* s)
+{
+  s_sem[wi].value_                    = s->value;
+  s_sem[wi].ongoing_acquisitions_.d   = s_qd[wi];
+  s_sem[wi].ongoing_acquisitions_.h   = 0;
+  s_sem[wi].ongoing_acquisitions_.n   = s->n;
+  s_sem[wi].ongoing_acquisitions_.cap = SSZ;
+  s_newcnt[wi]                        = 0;
+  for (int k = 0; k < SSZ; k++) {
+    struct SemAcquisitionImpl* q = (struct SemAcquisitionImpl*)malloc(sizeof(struct SemAcquisitionImpl));
+    __CPROVER_assume(q != NULL);
+    s_qd[wi][k] = q;
+    q->issuer_  = &s_act[s->issuer[k]];
+    q->granted_ = 0;
+  }
+}
+static void sapply(int kind, int wi, int x)
+{
+  s_world = wi;
+  vf_exc  = 0;
+  if (kind == T_SEM_ASYNC_LOCK)
+    SemaphoreImpl__acquire_async(&s_sem[wi], &s_act[x]);
+  else
+    SemaphoreImpl__release(&s_sem[wi]);
+}
+static int pending_capacity(int wi) /* what SemaphoreObserver::serialize packs for a pending LOCK/UNLOCK */
+{
+  return (int)SemaphoreImpl__get_capacity(&s_sem[wi]) - (int)s_sem[wi].ongoing_acquisitions_.n;
+}
+#define SQ(wi, k) (s_sem[wi].ongoing_acquisitions_.d[s_sem[wi].ongoing_acquisitions_.h + (k)])
+
+void harness(void)
+{
+  struct ssym s;
+  size_t gk = nondet_size();
+  /* well-formed semaphore: free tokens and waiters never coexist (WF of specs/C05) */
+  __CPROVER_assume(s.value <= 1000 && s.n <= QCAP && (s.value == 0 || s.n == 0));
+  for (int k = 0; k < SSZ; k++)
+    __CPROVER_assume(0 <= s.issuer[k] && s.issuer[k] < 3);
+  for (int a = 0; a < 3; a++) {
+    s_act[a].waiting_synchros_.d   = s_ws[a];
+    s_act[a].waiting_synchros_.h   = 0;
+    s_act[a].waiting_synchros_.cap = 2;
+    s_act[a].waiting_synchros_.n   = 0;
+  }
+  sbuild(0, &s);
+  sbuild(1, &s);
+  int op1 = OP1, op2 = OP2, A = 0, B = 1;
+  struct SemaphoreTransition ta, tb; /* both pending in the same state: same capacity field */
+  ta.__b_Transition.type_ = op1; ta.__b_Transition.aid_.value_ = 1; ta.sem_ = 7; ta.capacity_ = pending_capacity(0);
+  tb.__b_Transition.type_ = op2; tb.__b_Transition.aid_.value_ = 2; tb.sem_ = 7; tb.capacity_ = pending_capacity(0);
+  vf_exc          = 0;
+  _Bool dependent = Transition__dispatch_depends(&ta.__b_Transition, &tb.__b_Transition);
+  __CPROVER_assert(vf_exc == 0, "dispatch_depends accepts semaphore transitions"); /*@ sem_pair_evaluated */
+  if (dependent)
+    return;
+  sapply(op1, 0, A);
+  sapply(op2, 0, B);
+  sapply(op2, 1, B);
+  sapply(op1, 1, A);
+  __CPROVER_assert(s_sem[0].value_ == s_sem[1].value_ &&
+                       s_sem[0].ongoing_acquisitions_.n == s_sem[1].ongoing_acquisitions_.n,
+                   "same number of tokens and waiters in both orders"); /*@ sem_indep_same_tokens_and_waiters */
+  __CPROVER_assert(!(gk < s_sem[0].ongoing_acquisitions_.n) ||
+                       (SQ(0, gk)->issuer_ == SQ(1, gk)->issuer_ && SQ(0, gk)->granted_ == SQ(1, gk)->granted_),
+                   "same waiting queue in both orders"); /*@ sem_indep_same_queue */
+  /* the acquisitions created by A's and B's LOCKs end up granted in both orders or in neither */
+  __CPROVER_assert(s_newcnt[0] == s_newcnt[1], "same number of acquisitions created"); /*@ sem_indep_same_creations */
+  if (op1 == T_SEM_ASYNC_LOCK && op2 == T_SEM_ASYNC_LOCK) /* world 0 creates A's then B's, world 1 B's then A's */
+    __CPROVER_assert(s_new[0][0]->granted_ == s_new[1][1]->granted_ && s_new[0][1]->granted_ == s_new[1][0]->granted_,
+                     "each locker is granted in both orders or in neither"); /*@ sem_indep_same_grants */
+  if (op1 == T_SEM_ASYNC_LOCK && op2 == T_SEM_UNLOCK)
+    __CPROVER_assert(s_new[0][0]->granted_ == s_new[1][0]->granted_,
+                     "the locker is granted in both orders or in neither"); /*@ sem_indep_same_grant_vs_unlock */
   VF_CANARY_POINT;
 }
 #endif
